@@ -118,7 +118,7 @@ func (cce *staleIfErrorPolicy) CanStaleOnError(
 		}
 		age := saturatingAdd(freshness.Age.Value, max(cce.clock.Since(freshness.Age.Timestamp), 0))
 		// If stale-if-error is set, allow extra staleness
-		if age <= saturatingAdd(freshness.UsefulLife, dur) {
+		if age < saturatingAdd(freshness.UsefulLife, dur) {
 			return true
 		}
 	}
